@@ -17,7 +17,7 @@ DIMS = [
  ("eol", ["LF", "CRLF"]),
  ("nonascii", ["none", "default-value-é-before-token", "default-value-emoji-before-token", "non-ascii-parameter-before-token", "non-ascii-class-name", "non-ascii-in-usefixtures-before"]),
  ("collide", ["none", "test-name-contains-fixture-name", "dependent-fixture-name-contains-fixture-name"]),
- ("body", ["return", "yield"]),
+ ("body", ["return", "yield", "yield-keyword-on-a-later-line-than-its-statement"]),
  ("depsig", ["one-line", "one-param-per-line", "closing-paren-own-line", "first-param-on-def-line"]),
 ]
 
@@ -47,7 +47,10 @@ def build(a):
         L.append(I + "@pytest.fixture")
     kw = "async def" if a["async"] == 1 else "def"
     L.append(I + "%s fx_name(%s) -> int:" % (kw, self_))
-    L.append(I + unit + ("yield 1" if a["body"] == 1 else "return 1"))
+    if a["body"] == 2:
+        L.append(I + unit + "received = ("); L.append(I + unit * 2 + "yield 1"); L.append(I + unit + ")")
+    else:
+        L.append(I + unit + ("yield 1" if a["body"] == 1 else "return 1"))
     L.append("")
     # dependent fixture
     dep = "fx_name_user" if a["collide"] == 2 else "dep_user"
